@@ -1,7 +1,7 @@
 #!/bin/bash
 # usage: tools/seed_import.sh <ID> <k>   -- re-verifies agent output /tmp/wt/<ID>/_out/m<k>.* in a scratch worktree and stores it under seeded/
 # confirms: (1) patch applies, (2) the pinned suite still has 42/42 stable tests passing, (3) demo fails with the patch, (4) demo passes without it
-ID=$1; K=$2; SRC=/tmp/wt/$ID/_out; WT=/tmp/sv/${ID}_m$K; DST=/verif/seeded/$ID-m$K
+ID=$1; K=$2; DK=${3:-$2}; SRC=/tmp/wt/$ID/_out; WT=/tmp/sv/${ID}_m$K; DST=/verif/seeded/$ID-m$DK
 [ -f $SRC/m$K.patch ] || { echo "$ID m$K: no patch"; exit 1; }
 mkdir -p /tmp/sv; rm -rf $WT; git -C /repo worktree add --detach $WT HEAD >/dev/null 2>&1 || exit 1
 cd $WT
@@ -19,11 +19,11 @@ echo "$ID m$K: $res"
 if [ "$res" = ok ]; then
   mkdir -p $DST; cp $SRC/m$K.patch $DST/patch.diff; cp $SRC/m${K}_demo.py $DST/demo.py; cp $SRC/m$K.txt $DST/notes.txt
   /venv/bin/python - "$ID" "$K" "$DST" <<'PY'
-import json, sys
+import json, sys, os
 ID, K, DST = sys.argv[1:4]
 notes = open(f"{DST}/notes.txt").read()
 files = sorted({l.split(" b/")[1].strip() for l in open(f"{DST}/patch.diff") if l.startswith("diff --git")})
-json.dump({"id": f"{ID}-m{K}", "breaks_property": ID, "files": files, "needs_to_manifest": notes.strip(),
+json.dump({"id": os.path.basename(DST), "breaks_property": ID, "files": files, "needs_to_manifest": notes.strip(),
            "origin": "fresh sub-agent given only the property text and a scratch worktree (no access to /verif)",
            "confirmed": {"patch_applies_to": "HEAD of /repo at import time", "pinned_suite_with_patch": "42/42 stable tests pass (/tmp/wt/baseline.py = BASELINE.json command + stable_pass set)",
                          "demo_with_patch": "exits non-zero", "demo_without_patch": "exits 0",
